@@ -220,3 +220,27 @@ def c07(run):
     run.model_check("MC_TWKB", timeout=1800)
     family_enumerated(run, "twkb", "Gen_TWKB", "Trace_TWKB", gen_cfg=tier_n(run, "Gen_TWKB.cfg", "Gen_TWKB_full.cfg"))
     family_random(run, "twkb", "Trace_TWKB", tier_n(run, 8000, 300000))
+
+FAMILY_MODULE["wkb"] = "Trace_WKB"
+
+
+def _canary_wkb(e):
+    if e["kind"] != "enc" or len(e["bytes"]) < 22:
+        return None
+    e["bytes"][-1] ^= 1
+    return e
+
+
+CANARY["wkb"] = _canary_wkb
+
+
+@prop("C04")
+def c04(run):
+    run.assumptions += ["IEEE bits <-> float64 is trusted to math.Float64bits; ordinates are opaque 8-byte tokens in the specification"]
+    run.extra_cov = {"rule": "random trees of the 7 types x 4 coordinate types, empty members at every position, nesting to depth 4, "
+                             "ordinates from all float64 classes (subnormal, +-0, max, 17-digit, NaN payloads and Inf in Z/M); plus "
+                             "every encoding (all per-element byte orders) the specification's writer produces for its family; "
+                             "non-trivial = non-empty"}
+    run.model_check("MC_WKB", timeout=1800)
+    family_enumerated(run, "wkb", "Gen_WKB", "Trace_WKB", gen_cfg=tier_n(run, "Gen_WKB.cfg", "Gen_WKB_full.cfg"))
+    family_random(run, "wkb", "Trace_WKB", tier_n(run, 4000, 200000))
